@@ -1,5 +1,7 @@
 package xpath
 
+import "math"
+
 // The XPath number operator function list.
 
 type logical func(iterator, string, interface{}, interface{}) bool
@@ -283,6 +285,7 @@ var divFunc = func(t iterator, m, n interface{}) interface{} {
 // modFunc is an 'MOD' operator.
 var modFunc = func(t iterator, m, n interface{}) interface{} {
 	return numericExpr(t, m, n, func(a, b float64) float64 {
-		return float64(int(a) % int(b))
+		// the remainder of a truncating division, NaN for a zero divisor.
+		return math.Mod(a, b)
 	})
 }
